@@ -687,3 +687,9 @@ Example C03_history_end_to_end_inv_nonvacuous :
   | None => False
   end.
 Proof. vm_compute. repeat split. Qed.
+
+(* the guard of C03_history asks less than the guard of C03_history_partial (which re-checked wf_attr /
+   wf_docb / mkeys_distinct at every operation and excluded renames) *)
+Theorem C03_guard_weaker : forall lit fl ops d, hist_ok lit fl ops d = true -> hist_ok2 lit fl ops d = true.
+Proof. exact hist_ok_ok2. Qed.
+Print Assumptions C03_guard_weaker.
